@@ -12,7 +12,7 @@ from pyvc import spec as S
 EXPLANATION = ("Legendre, Chebyshev, monomial and split-Chebyshev bases: the real functions run on a symbolic abscissa equal the textbook "
                "recurrences for orders 1..12 (array and scalar form); func_fit: returned coefficients satisfy the weighted normal equations on "
                "the free parameters, fixed ones keep their values, yfit = basis^T . coefficients (bounded shapes, symbolic data and weights).")
-UNDECIDED = ["conditioning / exact recovery in floating point", "TraceSet construction from FITS, xnorm jump handling and traceset2xy: not under contract in this version",
+UNDECIDED = ["conditioning / exact recovery in floating point", "TraceSet construction (positions / FITS record), xnorm jump handling, xy / traceset2xy and the index grids: bounded numerical stand-in only (B)",
              "np.linalg.solve replaced by its contract A x = b (T-solve)"]
 
 
@@ -38,11 +38,19 @@ class Bases:
                                      "scipy.special.legendre/chebyt coefficient objects are concrete floats: equality coefficient-wise within 1e-10 (not an exact identity)",
                                      "element-wise uniformity over the abscissa array (A3)"])
 
-        def ob(name, ok, note=""):
+        def ob(name, ok, note="", witness=None):
             d = dict(name="bases_textbook:" + name, path=0, status="unsat" if ok else "sat", secs=0.0, backend="polyid", size=0, note="" if ok else note)
             if not ok:
-                d.update(inputs=None, model=note, reason="")
+                d.update(inputs=witness, model=note, reason="")
             res["obligations"].append(d)
+
+        def witness(nm, m, scalar):
+            """a concrete abscissa at which the real function differs from the textbook value (for the replay)"""
+            for j in range(41):
+                inp = dict(function=nm, m=m, x=-1.0 + j / 20.0, scalar=scalar)
+                if not self.native_replay(inp)[0]:
+                    return inp
+            return None
 
         def close_poly(e, want, x):
             d = sp.Poly(sp.expand(sp.sympify(e) - want), x)
@@ -65,7 +73,7 @@ class Bases:
                         out = fns[nm](arg, m)
                         res["paths"] += 1
                         ok = out.shape == (m, 1) and all(close_poly(out[k, 0], want[k], x) for k in range(m))
-                        ob("%s[m=%d,%s]" % (nm, m, form), ok, "rows %s" % [str(out[k, 0]) for k in range(min(m, 4))])
+                        ob("%s[m=%d,%s]" % (nm, m, form), ok, "rows %s" % [str(out[k, 0]) for k in range(min(m, 4))], None if ok else witness(nm, m, False))
                 if m >= 2:
                     for sgn, step in (("positive", 1), ("negative", 0)):
                         xs = sp.Symbol("x", **{sgn: True})
@@ -81,7 +89,7 @@ class Bases:
                         got0 = sp.Integer(1) if got0 is True or got0 == sp.true else (sp.Integer(0) if got0 is False or got0 == sp.false else got0)
                         ok = out.shape == (m, 1) and sp.simplify(sp.sympify(got0) - want[0]) == 0 and \
                             all(close_poly(out[k, 0], want[k], xs) for k in range(1, m))
-                        ob("fchebyshev_split[m=%d,x %s]" % (m, sgn), ok, "rows %s" % [str(out[k, 0]) for k in range(min(m, 4))])
+                        ob("fchebyshev_split[m=%d,x %s]" % (m, sgn), ok, "rows %s" % [str(out[k, 0]) for k in range(min(m, 4))], None if ok else witness("fchebyshev_split", m, False))
             # scalar calling form: values at 15 abscissae against the textbook polynomials (bounded, native)
             for m in range(1, maxm + 1):
                 for nm, want in (("flegendre", P), ("fchebyshev", T), ("fpoly", [x ** k for k in range(maxm + 2)])):
@@ -90,7 +98,7 @@ class Bases:
                         xv = -1.0 + j / 7.0
                         out = fns[nm](xv, m)
                         ok = ok and out.shape == (m, 1) and all(abs(float(out[k, 0]) - float(want[k].subs(x, xv))) < 1e-9 for k in range(m))
-                    ob("%s_scalar_form[m=%d]" % (nm, m), ok, "scalar form differs from the textbook value")
+                    ob("%s_scalar_form[m=%d]" % (nm, m), ok, "scalar form differs from the textbook value", None if ok else witness(nm, m, True))
             # argument validation
             for nm, bad in (("flegendre", 0), ("fchebyshev", 0), ("fpoly", 0), ("fchebyshev_split", 1)):
                 try:
@@ -103,6 +111,19 @@ class Bases:
             res["crashed"] = traceback.format_exc()
         res["wall_s"] = time.time() - t0
         return res
+
+    def native_replay(self, inputs):
+        import importlib
+        nm, m, xv = inputs["function"], int(inputs["m"]), float(inputs["x"])
+        fn = getattr(importlib.import_module("pydl.goddard.math" if nm == "flegendre" else "pydl.pydlutils.trace"), nm)
+        out = np.asarray(fn(xv if inputs.get("scalar") else np.array([xv]), m), dtype=float)
+        P, T = [1.0, xv], [1.0, xv]
+        for k in range(2, m + 1):
+            P.append(((2 * k - 1) * xv * P[k - 1] - (k - 1) * P[k - 2]) / k)
+            T.append(2 * xv * T[k - 1] - T[k - 2])
+        want = {"flegendre": P, "fchebyshev": T, "fpoly": [xv ** k for k in range(m + 1)], "fchebyshev_split": [1.0 if xv >= 0 else 0.0] + T}[nm][:m]
+        ok = out.shape == (m, 1) and all(abs(out[k, 0] - want[k]) < 1e-9 for k in range(m))
+        return ok, "%s(%r, %d) = %s, textbook %s" % (nm, xv, m, out[:, 0].tolist(), want)
 
 
 # ---------------------------------------------------------------------------
@@ -254,3 +275,140 @@ class FuncFitNormal(FunctionContract):
             yield dict(x=x, y=np.array([rng.uniform(-2, 2) for _ in range(npts)]),
                        invvar=np.array([rng.choice([0.0, 1.0, 2.0, 0.5]) if rng.random() < 0.9 else 0.0 for _ in range(npts)]),
                        ncoeff=nc, function_name=rng.choice(["legendre", "chebyshev", "poly"]), ia=ia, inputans=inputans)
+
+
+# ---------------------------------------------------------------------------
+# TraceSet: fit -> evaluate consistency, default grid, index grids; bounded numerical stand-ins
+# ---------------------------------------------------------------------------
+from pyvc.numeric import NumericJob as _NumericJob
+
+
+def _ref_basis(func, xn, ncoeff):
+    """textbook polynomials through numpy.polynomial (independent of the package's recurrences)"""
+    from numpy.polynomial import legendre, chebyshev
+    rows = []
+    for k in range(ncoeff):
+        c = np.zeros(k + 1)
+        c[k] = 1.0
+        rows.append(legendre.legval(xn, c) if func == "legendre" else chebyshev.chebval(xn, c) if func == "chebyshev" else xn ** k)
+    return np.array(rows)
+
+
+def _ref_xnorm(x, xmin, xmax, jump):
+    x = np.asarray(x, dtype=float)
+    if jump is not None:
+        lo, hi, val = jump
+        x = x + np.clip((x - lo) / (hi - lo), 0.0, 1.0) * val
+    return 2.0 * (x - 0.5 * (xmin + xmax)) / (xmax - xmin)
+
+
+@register("C13")
+class TraceSetJob(_NumericJob):
+    name = "traceset_fit_evaluate"
+    target = "pydl.pydlutils.trace:TraceSet.__init__, TraceSet.xy, TraceSet.xnorm, traceset2xy, xy2traceset; pydl.pydlutils.misc:djs_laxisgen, djs_laxisnum"
+    bound = ("1..4 traces of 6..30 points, poly / legendre / chebyshev with 1..5 coefficients, random weights with zeros, with and without the x-jump, "
+             "construction from positions and from a FITS record, explicit xmin/xmax or from the data; each default-grid evaluation repeated after the "
+             "previously returned arrays were modified in place")
+    KINDS = ("evaluating_at_the_fitted_positions_returns_yfit", "coefficients_are_the_weighted_least_squares_solution", "evaluation_equals_textbook_series_in_normalised_x",
+             "default_grid_spans_xmin_to_xmax_in_unit_steps", "results_are_fresh_arrays_and_inputs_unchanged", "index_grids_equal_their_definition")
+    NQ, NT = 200, 2000
+
+    def _cases(self, rng, n):
+        for rep in range(n):
+            nt, nx = rng.randint(1, 4), rng.randint(6, 30)
+            func = rng.choice(["poly", "legendre", "chebyshev"])
+            nc = rng.randint(1, 5)
+            x0 = rng.choice([0.0, 0.0, 3.0, -7.0, 100.0])
+            xpos = np.array([[x0 + j + (rng.uniform(-0.3, 0.3) if rng.random() < 0.5 else 0.0) for j in range(nx)] for _ in range(nt)])
+            co = [[rng.uniform(-2, 2) for _ in range(nc)] for _ in range(nt)]
+            ypos = np.array([[sum(c * ((xx - x0) / nx) ** k for k, c in enumerate(co[t])) + rng.gauss(0, 0.01) for xx in xpos[t]] for t in range(nt)])
+            iv = np.array([[0.0 if rng.random() < 0.15 else rng.uniform(0.5, 2.0) for _ in range(nx)] for _ in range(nt)])
+            jump = None
+            if rng.random() < 0.5:
+                lo = x0 + rng.uniform(0.2, 0.5) * nx
+                jump = (lo, lo + rng.uniform(0.5, 3.0), rng.uniform(-1.5, 1.5))
+            yield dict(xpos=xpos, ypos=ypos, iv=iv, func=func, nc=nc, jump=jump, explicit=rng.random() < 0.4, use_iv=rng.random() < 0.7,
+                       inp=dict(rep=rep, nTrace=nt, nx=nx, func=func, ncoeff=nc, jump=jump is not None))
+
+    def _check(self, c):
+        from astropy.io import fits
+        from pydl.pydlutils.trace import TraceSet, traceset2xy, xy2traceset
+        from pydl.pydlutils.misc import djs_laxisgen, djs_laxisnum
+        xpos, ypos, iv, func, nc, jump = c["xpos"], c["ypos"], c["iv"], c["func"], c["nc"], c["jump"]
+        kw = dict(func=func, ncoeff=nc, maxiter=0 if c["inp"]["rep"] % 2 else 10)
+        if c["use_iv"]:
+            kw["invvar"] = iv
+        w = iv if c["use_iv"] else np.ones(iv.shape)
+        if c["explicit"]:
+            kw.update(xmin=float(np.floor(xpos.min())) - 1.0, xmax=float(np.ceil(xpos.max())) + 2.0)
+        if jump is not None:
+            kw.update(xjumplo=jump[0], xjumphi=jump[1], xjumpval=jump[2])
+        x_in, y_in, iv_in = xpos.copy(), ypos.copy(), iv.copy()
+        ts = xy2traceset(xpos, ypos, **kw)
+        bad = []
+        xmin, xmax = float(ts.xmin), float(ts.xmax)
+        if not c["explicit"] and (xmin != x_in.min() or xmax != x_in.max()):
+            bad.append(("default_grid_spans_xmin_to_xmax_in_unit_steps", "xmin/xmax %r %r are not the extremes of the positions" % (xmin, xmax)))
+        # coefficients: independent weighted least squares per trace
+        for t in range(xpos.shape[0]):
+            B = _ref_basis(func, _ref_xnorm(x_in[t], xmin, xmax, jump), nc)
+            sw = np.sqrt(w[t])
+            if (w[t] > 0).sum() < nc + 2 or np.linalg.cond((B * sw).T) > 1e6:
+                continue
+            sol = np.linalg.lstsq((B * sw).T, y_in[t] * sw, rcond=None)[0]
+            if not np.allclose(ts.coeff[t], sol, rtol=1e-6, atol=1e-8):
+                bad.append(("coefficients_are_the_weighted_least_squares_solution", "trace %d: %s vs %s" % (t, np.round(ts.coeff[t], 6).tolist(), np.round(sol, 6).tolist())))
+                break
+        # evaluate again at the fitted positions
+        xe, ye = ts.xy(xpos)
+        x2, y2 = traceset2xy(ts, xpos)
+        if not (np.allclose(ye, ts.yfit, rtol=1e-9, atol=1e-9) and np.array_equal(y2, ye) and np.array_equal(xe, x_in)):
+            bad.append(("evaluating_at_the_fitted_positions_returns_yfit", "max |xy(xpos) - yfit| = %g" % np.abs(ye - ts.yfit).max()))
+        for ign in (False, True):
+            exp = np.array([_ref_basis(func, _ref_xnorm(x_in[t], xmin, xmax, None if ign else jump), nc).T @ ts.coeff[t] for t in range(xpos.shape[0])])
+            got = ts.xy(xpos, ignore_jump=ign)[1]
+            if not np.allclose(got, exp, rtol=1e-9, atol=1e-9):
+                bad.append(("evaluation_equals_textbook_series_in_normalised_x", "ignore_jump=%s: max deviation %g" % (ign, np.abs(got - exp).max())))
+        if not (np.array_equal(xpos, x_in) and np.array_equal(ypos, y_in) and np.array_equal(iv, iv_in)):
+            bad.append(("results_are_fresh_arrays_and_inputs_unchanged", "xpos / ypos / invvar changed in place"))
+        # the same trace set from a FITS record
+        cols = [fits.Column(name="FUNC", format="16A", array=np.array([func])), fits.Column(name="XMIN", format="D", array=np.array([xmin])),
+                fits.Column(name="XMAX", format="D", array=np.array([xmax])),
+                fits.Column(name="COEFF", format="%dD" % ts.coeff.size, dim="(%d,%d)" % (nc, xpos.shape[0]), array=ts.coeff[None, :, :])]
+        if jump is not None:
+            cols += [fits.Column(name=nm, format="D", array=np.array([v])) for nm, v in zip(("XJUMPLO", "XJUMPHI", "XJUMPVAL"), jump)]
+        tf = TraceSet(fits.BinTableHDU.from_columns(cols).data)
+        sets = [("positions", ts), ("FITS record", tf)]
+        for lab, s in sets:
+            nxg = int(xmax - xmin + 1)
+            for rnd in range(2):
+                gx, gy = s.xy()
+                ok = gx.shape == (xpos.shape[0], nxg) and all(np.array_equal(gx[t], xmin + np.arange(nxg)) for t in range(gx.shape[0]))
+                if not ok:
+                    bad.append(("default_grid_spans_xmin_to_xmax_in_unit_steps", "%s, call %d: shape %s first row %s..." % (lab, rnd + 1, gx.shape, np.asarray(gx)[0][:4].tolist())))
+                    break
+                exp = np.array([_ref_basis(func, _ref_xnorm(gx[t], xmin, xmax, jump), nc).T @ s.coeff[t] for t in range(gx.shape[0])])
+                if not np.allclose(gy, exp, rtol=1e-9, atol=1e-9):
+                    bad.append(("evaluation_equals_textbook_series_in_normalised_x", "%s default grid: max deviation %g" % (lab, np.abs(gy - exp).max())))
+                # a caller modifying what it was given must not influence later calls
+                gx += 1.0
+                gy[:] = 0.0
+                g = djs_laxisgen([s.nTrace, s.nx], iaxis=1)
+                g += 5
+        # index grids against their definition, twice, modifying the first result
+        dims = [xpos.shape[0], min(xpos.shape[1], 7)] + ([3] if c["inp"]["rep"] % 3 == 0 else [])
+        for ax in range(len(dims)):
+            for fn in (djs_laxisgen, djs_laxisnum):
+                for rnd in range(2):
+                    g = fn(dims, iaxis=ax)
+                    expg = np.zeros(dims, dtype=int)
+                    for idx in np.ndindex(*dims):
+                        expg[idx] = idx[ax]
+                    if g.shape != tuple(dims) or not np.array_equal(g, expg):
+                        bad.append(("index_grids_equal_their_definition", "%s(%s, iaxis=%d), call %d" % (fn.__name__, dims, ax, rnd + 1)))
+                    g += 3
+        g1 = djs_laxisgen([5])
+        g1 += 1
+        if not np.array_equal(djs_laxisgen([5]), np.arange(5)):
+            bad.append(("index_grids_equal_their_definition", "djs_laxisgen([5]) after modifying an earlier result"))
+        return bad
